@@ -158,6 +158,46 @@ class CombContents:
             c.check('combination-inconsistent', z3.And(conj), 'a yielded array has sums that do not describe its contents or is not sorted by sum')
 
 
+class CombGeneral:
+    """(c) BinnerKeepingContents.all_combinations on two bins-arrays whose CONTENTS STRUCTURE is symbolic too: each of m1 (m2) named
+    items is placed in a bin chosen by a solver variable, so empty bins, bins of different cardinality and equal sums all occur"""
+    def __init__(self, k, m1, m2):
+        self.k = k; self.m1 = m1; self.m2 = m2
+
+    def setup(self, c):
+        a = item_vars(c, self.m1, 0, 'any', prefix='a'); b = item_vars(c, self.m2, 0, 'any', prefix='b')
+        return (a, b)
+
+    def fn(self, c, a, b):
+        k = self.k
+        an = ['a%d' % i for i in range(len(a))]; bn = ['b%d' % i for i in range(len(b))]
+        vals = dict(zip(an + bn, numbers(c, a) + numbers(c, b)))
+        zv = dict(zip(an + bn, [c.zvars[i] for i in a] + [c.zvars[i] for i in b]))
+        binner = prtpy.BinnerKeepingContents(vals.__getitem__)
+        b1 = binner.new_bins(k); b2 = binner.new_bins(k)
+        for nm in an: binner.add_item_to_bin(b1, nm, c.pick(k, 'p' + nm))
+        for nm in bn: binner.add_item_to_bin(b2, nm, c.pick(k, 'p' + nm))
+        snap1 = [list(l) for l in b1[1]]; snap2 = [list(l) for l in b2[1]]
+        ys = list(binner.all_combinations(b1, b2))
+        c.outcome = {'structure': [snap1, snap2], 'yielded': len(ys)}
+        keys = []
+        conj = []
+        for sums, lists in ys:
+            keys.append(tuple(sorted(tuple(sorted(l)) for l in lists)))
+            for i, l in enumerate(lists):
+                conj.append(zi(sums[i]) == zsum(zv[x] for x in l))
+            conj += [zi(sums[i]) <= zi(sums[i + 1]) for i in range(k - 1)]
+        want = set()
+        for p in itertools.permutations(range(k)):
+            want.add(tuple(sorted(tuple(sorted(snap1[p[i]] + snap2[i])) for i in range(k))))
+        if set(keys) != want:
+            c.report('combination-missing-or-invented', 'bins %s x %s: yielded %d distinct pairings, %d exist' % (snap1, snap2, len(set(keys)), len(want)))
+        if len(set(keys)) != len(keys):
+            c.report('combination-yielded-twice', 'bins %s x %s: %d yielded, %d distinct' % (snap1, snap2, len(keys), len(set(keys))))
+        if conj:
+            c.check('combination-inconsistent', z3.And(conj), 'a yielded array has sums that do not describe its contents or is not sorted by sum')
+
+
 class CkkBound:
     """CKK's difference bound on a heap of singleton arrays against the expansion oracle"""
     def __init__(self, n, k):
@@ -190,7 +230,7 @@ class CkkBound:
         c.check('inadmissible-bound', z3.And(conj), 'the CKK difference bound exceeds the difference of a reachable partition')
 
 
-KINDS = {'lb': LowerBound, 'tree': Tree, 'combsums': CombSums, 'combcontents': CombContents, 'ckkbound': CkkBound}
+KINDS = {'lb': LowerBound, 'tree': Tree, 'combsums': CombSums, 'combcontents': CombContents, 'combgeneral': CombGeneral, 'ckkbound': CkkBound}
 
 
 def make(kind, **params):
@@ -219,12 +259,14 @@ def jobs(tier):
     J.append(job('combsums', k=2, cont='arr'))
     J.append(job('combsums', k=3, sorted_inputs=True)); J.append(job('combcontents', k=3))
     J.append(job('combcontents', k=2, two_items=True))
+    J.append(job('combgeneral', k=2, m1=3, m2=2)); J.append(job('combgeneral', k=2, m1=2, m2=0)); J.append(job('combgeneral', k=3, m1=3, m2=1))
     for (n, k) in ((3, 2), (4, 2), (4, 3), (3, 1), (5, 3)):
         J.append(job('ckkbound', n=n, k=k))
     if tier == 'thorough':
         J.append(job('tree', n=4, den=1)); J.append(job('tree', n=4, den=3)); J.append(job('tree', n=6, den=2, order='desc'))
         J.append(job('combsums', k=3)); J.append(job('combsums', k=4, sorted_inputs=True, mandatory=False))
         J.append(job('combcontents', k=3, two_items=True)); J.append(job('combcontents', k=4, mandatory=False))
+        J.append(job('combgeneral', k=3, m1=3, m2=2)); J.append(job('combgeneral', k=3, m1=4, m2=2, mandatory=False)); J.append(job('combgeneral', k=2, m1=4, m2=3))
         J.append(job('ckkbound', n=5, k=4)); J.append(job('ckkbound', n=6, k=3))
     return J
 
